@@ -1,12 +1,12 @@
 SPECIFICATION MCSpec
 CONSTANTS
   Relax = {}
-  Mode = "honest"
+  Mode = "revoked"
   MaxBlocks = 2
-  Layouts = {"plain"}
-  MaxUnwind = 0
+  Layouts = {"plain", "fee_after"}
+  MaxUnwind = 1
   Defect = "none"
-  MaxReload = 1
+  MaxReload = 0
 CONSTRAINT Bounded
 VIEW View
 INVARIANT TypeOK
